@@ -183,8 +183,14 @@ class Verifier:
                 env[p] = ip.eval(defaults[p], Frame(mod, key))
             else:
                 raise EngineError(f'{key}: parameter {p} has no kind in the contract')
+        if a.vararg is not None:
+            vk = c.params.get(a.vararg.arg)
+            env[a.vararg.arg] = vk.fresh(ip, a.vararg.arg) if vk is not None else VTuple(())
         for p, k in c.ghost_params.items():
             env[p] = k.fresh(ip, p)
+        for v in list(env.values()):
+            if isinstance(v, VFunc) and getattr(v, 'bind_name', None):
+                v.self_val = env[v.bind_name]
         parent = None
         if c.closure_env:
             parent = Frame(mod, key.rsplit('.<locals>.', 1)[0], {})
